@@ -962,3 +962,13 @@ MUTANTS += [
       edits=[('src/bls12_381/curve_fast_multiply.cpp', '                    if (c0_neg) {\n                        G1 tmp;\n                        tmp.negate(entry);\n                        this->add(*this, tmp);\n                    } else {\n                        this->add(*this, entry);\n                    }\n                } else {',
               '                    this->add(*this, entry);\n                } else {')]),
 ]
+# ---- round 8
+MUTANTS += [
+ dict(name='seed-C19-unmarshal-helper-passes-compressed-as-checked', prop='C19', patch='seeded/C19-unmarshal-helper-passes-compressed-as-checked/patch.diff', expect='R-WRAP'),
+ dict(name='c19-benign-shared-marshal-helpers', prop='C19', benign=True, expect='', patch='selftest/fixes/benign-c19-shared-marshal-helpers.patch'),
+ dict(name='c15-benign-shared-marshal-helpers', prop='C15', benign=True, expect='', patch='selftest/fixes/benign-c19-shared-marshal-helpers.patch'),
+ dict(name='seed-C04-fq2-sqrt-exceptional-guard', prop='C04', patch='seeded/C04-fq2-sqrt-exceptional-branch-guard/patch.diff', expect='R-POLY/sqrt'),
+ dict(name='seed-C05-fq2-is-one-predicate', prop='C05', patch='seeded/C05-fq2-is-one-wrong-conjunction/patch.diff', expect='R-PRED'),
+ dict(name='c04-fq6-is-zero-skips-c2', prop='C04', expect='R-PRED',
+      edits=[('src/bls12_381/fq6.cpp', '        return c0_zero && c1_zero && c2_zero;', '        return c0_zero && c1_zero;')]),
+]
